@@ -183,6 +183,28 @@ func c13ConstWorker(e *Env) *res.Result {
 	for i, s := range reals {
 		if i%e.NShards == e.Shard {
 			check(s, "real-spec")
+			// the same content through the file-based entry point the CLI uses
+			// (GenerateFile: read the file, load it, embed it); content the loader
+			// refuses is outside this path's domain
+			out := filepath.Join(dir, "fileout")
+			work := filepath.Join(dir, "filework")
+			os.RemoveAll(out)
+			os.RemoveAll(work)
+			os.MkdirAll(out, 0o755)
+			os.MkdirAll(work, 0o755)
+			name := "openapi.yaml"
+			oc := inproc.Generate([]byte(s), inproc.Config{DoNotEdit: true, SpecFilename: name}, work, out)
+			r.Evaluations++
+			if oc.Err != nil || oc.Panic != "" {
+				r.Label("file-entry:refused")
+				continue
+			}
+			r.Label("file-entry:generated")
+			got, err := specConst(out)
+			if err != nil || got != s {
+				msg := fmt.Sprintf("through GenerateFile the SpecFile constant differs from the file: got %q want %q (%v)", clip(got, 60), clip(s, 60), err)
+				r.Fail(res.Failure{Property: "C13", Kind: "file-entry:" + contentClass(s), Clause: "constant", Detail: msg, Replay: map[string]any{"content.txt": s}})
+			}
 		}
 	}
 	// (c) rapid text
@@ -277,7 +299,7 @@ func c13ServedMain(e *Env) (*res.Result, error) {
 		}
 		d.Servers = bf.Servers
 		cfg := inproc.Config{BasePath: bf.Flag, DoNotEdit: true}
-		cfg.SpecHandlerName = rapid.SampledFrom([]string{"openapi.yaml", "openapi.yaml", "spec.json", "openapi", "api-docs.yml"}).Draw(t, "spec_handler_name")
+		cfg.SpecHandlerName = rapid.SampledFrom([]string{"openapi.yaml", "openapi.yaml", "spec.json", "openapi", "api-docs.yml", "docs/openapi.yaml", "v2/spec/api.json"}).Draw(t, "spec_handler_name")
 		ps := PkgSpec{Doc: d, Cfg: cfg, Meta: map[string]any{"baseform": bf.Name}}
 		switch rapid.IntRange(0, 2).Draw(t, "content_kind") {
 		case 0:
